@@ -68,7 +68,7 @@ func (c *DeviceCodeTokenEndpointHandler) PopulateTokenEndpointResponse(ctx conte
 	}
 
 	if err = c.DeviceCodeStrategy.ValidateDeviceCode(ctx, ar, code); err != nil {
-		return errorsx.WithStack(err)
+		return errorsx.WithStack(deviceCodeValidationError(err))
 	}
 
 	for _, scope := range ar.GetGrantedScopes() {
@@ -164,7 +164,7 @@ func (c *DeviceCodeTokenEndpointHandler) HandleTokenEndpointRequest(ctx context.
 	}
 
 	if err = c.DeviceCodeStrategy.ValidateDeviceCode(ctx, ar, code); err != nil {
-		return errorsx.WithStack(err)
+		return errorsx.WithStack(deviceCodeValidationError(err))
 	}
 
 	// Override scopes
@@ -302,4 +302,14 @@ func getExpiresIn(r fosite.Requester, key fosite.TokenType, defaultLifespan time
 		return defaultLifespan
 	}
 	return time.Duration(r.GetSession().GetExpiresAt(key).UnixNano() - now.UnixNano())
+}
+
+// deviceCodeValidationError keeps OAuth 2.0 errors raised by the strategy (expired_token, ...) and turns anything
+// else, e.g. the decoding error of a malformed device code, into invalid_grant.
+func deviceCodeValidationError(err error) error {
+	var rfcerr *fosite.RFC6749Error
+	if errors.As(err, &rfcerr) {
+		return err
+	}
+	return fosite.ErrInvalidGrant.WithWrap(err).WithDebug(err.Error())
 }
